@@ -1,4 +1,4 @@
-import BsVerif.Lemmas.Tracer
+import BsVerif.Lemmas.TracerInv
 /-!
 # C09 — all-stop and exactly-once reporting for every thread interleaving
 
@@ -67,26 +67,62 @@ theorem C09_group_stop_coverage :
 
 /-- The second round of the group stop is a no-op whenever the first left nobody marked running: a complete pass
 over ANY list issues no call, opens the latch and returns (so "2 rounds → 1" is behaviour-preserving in the model). -/
-theorem C09_second_round_noop (n : Nat) (s : St) (init : Option Tid) (todo : List Tid)
-    (h : runningIds s.tbl = []) :
-    unwind (n + 1) s (.pick init 1 todo) = unwind n { s with latch := false } .gsDone := by
-  have hc : gsCands s todo = [] := by
+theorem C09_second_round_noop (s : St) (g : Gs) (h : runningIds s.tbl = []) : pick1 s g = gsEnd s g := by
+  have hc : gsCands s g.todo = [] := by
     apply List.filter_eq_nil_iff.mpr
     intro t _ hr
     have := isRunning_iff.mp hr
     rw [h] at this
     exact absurd this List.not_mem_nil
-  simp [unwind, hc]
+  simp [pick1, hc]
 
-/-- The full end-to-end statement (tracer side of all-stop): whenever a command returns to the prompt with a
-breakpoint or signal stop, no thread is marked running.  Its inductive steps are `C09_group_stop_coverage` and
-`C09_only_cont_stopped_marks_running`; the composition over the control stack of the machine is NOT mechanised in
-this revision (no counterexample is known; the correspondence run compares the table at every stop). -/
-def C09_all_marked_stopped_full : Prop :=
-  ∀ (s : St) (es : List Ev), s.aw = .idle → runningIds s.tbl = [] → s.latch = false →
-    (run (cmdContinue s) es).aw = .idle →
-    (∀ c, (run (cmdContinue s) es).last ≠ some (.exit c)) →
-    runningIds (run (cmdContinue s) es).tbl = []
+/-- … and the first round always leaves nobody marked running: when it finds no running tracee left on its list the
+table has none at all (so the second round never interrupts anybody). -/
+theorem C09_first_round_complete (s : St) (g : Gs) (hc : Cov s.tbl g.todo) (h : gsCands s g.todo = []) :
+    runningIds s.tbl = [] := cov_cands_empty s g.todo hc h
+
+/-- a debugging session: `continue` commands, each followed by the calls observed until the next prompt -/
+def session (s : St) (cmds : List (List Ev)) : St := cmds.foldl (fun s es => run (cmdContinue s) es) s
+
+theorem inv_run {s : St} (es : List Ev) (h : Inv s) : Inv (run s es) := by
+  induction es generalizing s with
+  | nil => exact h
+  | cons e es ih => exact ih (inv_step e h)
+
+theorem inv_session {s : St} (cmds : List (List Ev)) (h : Inv s) : Inv (session s cmds) := by
+  induction cmds generalizing s with
+  | nil => exact h
+  | cons es cmds ih => exact ih (inv_run es (inv_cmdContinue h))
+
+/-- `C09_all_stop`, tracer side, for EVERY session and EVERY stream of kernel answers: start at a prompt where no
+thread is marked running and no group stop is in progress; issue any number of `continue` commands, the kernel
+answering whatever it likes; whenever the machine is back at the prompt with anything but "the process exited"
+(a breakpoint stop or a signal stop), NO thread of the table is marked running — the group stop has visited every
+thread, including the ones created while it was in progress, for every order of the snapshot. -/
+theorem C09_all_marked_stopped (s : St) (cmds : List (List Ev))
+    (h0 : s.aw = .idle) (h1 : s.gs = none) (h2 : runningIds s.tbl = []) :
+    (session s cmds).aw = .idle → (∀ c, (session s cmds).last ≠ some (.exit c)) →
+      runningIds (session s cmds).tbl = [] := by
+  have hI : Inv s := ⟨covOK_of_none h1, by intro g h; simp [h1] at h, by intro g h; simp [h1] at h,
+    fun _ _ => h2, by intro a r h; simp [h0] at h⟩
+  exact (inv_session cmds hI).prompt
+
+/-- … and while a group stop is in progress every thread marked running is still on its list (the invariant the
+statement above is proved with), in every reachable state. -/
+theorem C09_group_stop_covers (s : St) (cmds : List (List Ev)) (es : List Ev)
+    (h0 : s.aw = .idle) (h1 : s.gs = none) (h2 : runningIds s.tbl = []) (g : Gs)
+    (hg : (run (cmdContinue (session s cmds)) es).gs = some g) :
+    ∀ t ∈ runningIds (run (cmdContinue (session s cmds)) es).tbl, t ∈ accG g := by
+  have hI : Inv s := ⟨covOK_of_none h1, by intro g h; simp [h1] at h, by intro g h; simp [h1] at h,
+    fun _ _ => h2, by intro a r h; simp [h0] at h⟩
+  exact (inv_run es (inv_cmdContinue (inv_session cmds hI))).cov g hg
+
+-- non-vacuity: a two-thread session in which the second thread is absorbed by the group stop (test, not a theorem)
+#guard
+  let s0 : St := { tbl := { rows := [⟨0, 1, .stop⟩, ⟨1, 2, .stop⟩], next := 3 }, bps := [(100, 72)], fpc := none }
+  let s1 := session s0 [[.cont 0 0 .ok, .cont 1 0 .ok, .wait none (.sig 0 5), .siginfo 0 128 101 .ok,
+    .setpc 0 100 101 .ok, .intr 1 .ok, .wait (some 1) (.sig 1 5), .siginfo 1 128 101 .ok, .setpc 1 100 101 .ok]]
+  s1.aw == .idle && s1.last == some (.bp 0 100) && s1.tbl.allStopped
 
 /-! ## Exactly once: the pc rewind and the lifted breakpoint -/
 
